@@ -42,7 +42,7 @@ def judge(d):
     n = tuple(d["box"])
     ish = tuple(d["ishape"])
     scale = d["scale"]
-    ntomo = 2 if d["batch"] else 1
+    ntomo = (3 if d.get("three") else 2) if d["batch"] else 1
     imgs = [gen.smooth_noise(d["seed"] + t, ish, sigma=1.0) for t in range(ntomo)]
     nm = len(d["mols"])
     bshape = tuple(s // b for s in ish)
@@ -69,21 +69,24 @@ def judge(d):
     feats = pl.DataFrame({"uid": list(range(nm)), "w": [0.5 * i for i in range(nm)]})
     mole = Molecules(pos_px * scale, Rotation.from_rotvec(np.array(rots)), features=feats)
 
-    def wrap(t):
+    def wrap(t, ti=0):
         if d["chunks"] is None:
             return t
+        kinds = d.get("kinds")
+        if d["batch"] and kinds and not kinds[ti % len(kinds)]:
+            return t          # a batch mixing numpy and dask tomograms
         return da.from_array(t, chunks=tuple(tuple(c) for c in d["chunks"]))
 
     order = d["order"]
     if d["batch"]:
         loader = BatchLoader(order=order, scale=scale)
-        split = [i for i in range(nm) if i % 2 == 0], [i for i in range(nm) if i % 2 == 1]
-        for t in range(2):
+        split = [[i for i in range(nm) if i % ntomo == t] for t in range(ntomo)]
+        for t in range(ntomo):
             if split[t]:
-                loader.add_tomogram(wrap(imgs[t]), mole.subset(split[t]), image_id=t)
-        tomo_of = {i: (0 if i % 2 == 0 else 1) for i in range(nm)}
+                loader.add_tomogram(wrap(imgs[t], t), mole.subset(split[t]), image_id=t)
+        tomo_of = {i: i % ntomo for i in range(nm)}
     else:
-        loader = SubtomogramLoader(wrap(imgs[0]), mole, order=order, scale=scale)
+        loader = SubtomogramLoader(wrap(imgs[0], 0), mole, order=order, scale=scale)
         tomo_of = {i: 0 for i in range(nm)}
     before_pos = loader.molecules.pos.copy()
     before_q = loader.molecules.quaternion().copy()
@@ -170,7 +173,8 @@ def cases(draw):
              "rot": draw(gen.rotvecs())} for _ in range(draw(st.integers(1, 4)))]
     return {"b": b, "box": box, "ishape": ish, "chunks": chunks, "compute": draw(st.booleans()), "batch": draw(st.booleans()),
             "scale": draw(gen.scales), "order": draw(st.sampled_from([0, 1, 3])), "cls": cls, "mols": mols, "seed": draw(gen.seeds),
-            "preload": draw(st.booleans())}
+            "preload": draw(st.booleans()), "three": draw(st.booleans()),
+            "kinds": draw(st.lists(st.booleans(), min_size=3, max_size=3))}
 
 
 def nontrivial(d):
@@ -179,7 +183,8 @@ def nontrivial(d):
 
 def labels(d):
     return [f"b:{d['b']}", "divisible" if not any(s % d["b"] for s in d["ishape"]) else "non-divisible", f"cls:{d['cls']}",
-            "batch" if d["batch"] else "single", "dask" if d["chunks"] else "numpy", f"compute:{d['compute']}", "parent-used-first" if d.get("preload") else "fresh-parent"] + gen.parity_class(d["box"])
+            "batch" if d["batch"] else "single", "dask" if d["chunks"] else "numpy", f"compute:{d['compute']}", "parent-used-first" if d.get("preload") else "fresh-parent",
+            "mixed-numpy-dask" if (d["batch"] and d["chunks"] and len(set(d.get("kinds", [True])[: (3 if d.get("three") else 2)])) > 1) else "uniform-kind"] + gen.parity_class(d["box"])
 
 
 def engines():
